@@ -26,6 +26,7 @@ func famSesReent(t *testing.T, r *Rec) {
 	reentUploadAcrossClose(r, cfg)
 	reentSlowCallback(r, cfg)
 	reentStalledPeer(r, cfg)
+	reentPollAfterAbortedPoll(r)
 	events := []string{"packetCreate", "flush", "drain", "packet", "message", "close", "cb"}
 	if r.thorough() {
 		events = append(events, "heartbeat", "upgrading", "upgrade")
@@ -276,6 +277,37 @@ func reentUploadAcrossClose(r *Rec, cfg string) {
 		if last.pend != "-" {
 			r.Violate("C11", "C11/request-never-answered/upload-across-close/"+how, "a data request whose upload finished after its session's transport had closed was never answered: pending "+last.pend, lines)
 		}
+	}
+}
+
+// reentPollAfterAbortedPoll: the client gives up its pending poll and polls again while the server is still dealing
+// with the first one's end (a slow "close" listener of an application middleware sits in front of the transport's).
+// Whatever the server makes of the newcomer — an overlap (400, session closed) or a poll of a session that is gone —
+// it answers it (C11: every request gets exactly one response, a pending poll at the latest when its session closes).
+func reentPollAfterAbortedPoll(r *Rec) {
+	lines := []string{"ses cfg 25000 20000 1000 100000 default 1 0 - 0 - - - slowclose", "ses hs polling 4 0 -", "ses poll s0", "ses react reqclose park",
+		"ses abort 1", "ses poll s0", "ses unpark", "ses adv 10", "ses obs", "ses adv 31000", "ses obs"}
+	outs, fault := runIsolated(lines, 15*time.Second)
+	r.scenarios++
+	r.Cover("reent/poll-after-aborted-poll")
+	if fault != "" && !strings.Contains(fault, "main_bubble_goroutine_has_exited") {
+		r.Violate("C11", "C11/"+strings.SplitN(fault, ":", 2)[0]+"/poll-after-aborted-poll", "a poll arriving while the abort of the previous one was still being handled made the server "+fault, lines)
+		return
+	}
+	answered := false
+	for _, out := range outs {
+		if out == "-" || out == "ok" {
+			continue
+		}
+		for _, rs := range parseObs(out).resps {
+			if rs.req == 2 {
+				answered = true
+			}
+		}
+	}
+	last := parseObs(outs[len(outs)-1])
+	if !answered || last.pend != "-" {
+		r.Violate("C11", "C11/request-never-answered/poll-after-aborted-poll", fmt.Sprintf("the poll that arrived while the abort of the previous one was still being handled was never answered (answered=%v, pending at the end: %s)", answered, last.pend), lines)
 	}
 }
 
